@@ -257,3 +257,45 @@ Definition rd_u16_bad : dec N :=
   RawRead 2 (fun bs => match bs with [a; b] => Ret (a * 256 + b) | _ => Crash 0 end).
 Example rawread_refuted : exists s, run_chunked rd_u16_bad s <> run_flat rd_u16_bad (concat s).
 Proof. exists [[1];[2]]. vm_compute. discriminate. Qed.
+
+(* ---- an equal but faster interpreter for the extracted drivers: run_flat tests `n <=? lenN s` by measuring
+   the whole remaining input at every ReadFull, which is quadratic on documents made of many small reads;
+   run_fast walks at most n cells.  Proved equal, so every theorem about run_flat speaks about it. *)
+Fixpoint fits (n : N) (s : list N) : bool :=
+  match s with
+  | [] => n =? 0
+  | _ :: t => if n =? 0 then true else fits (N.pred n) t
+  end.
+
+Lemma fits_spec : forall s n, fits n s = (n <=? lenN s).
+Proof.
+  induction s as [|b s IH]; intros n; cbn [fits].
+  - change (lenN (@nil N)) with 0. destruct (N.eqb_spec n 0) as [->|H]; [reflexivity|]. symmetry. apply N.leb_gt. lia.
+  - rewrite (lenN_cons b s). destruct (N.eqb_spec n 0) as [->|H]; [symmetry; apply N.leb_le; lia|].
+    rewrite IH. destruct (N.leb_spec (N.pred n) (lenN s)), (N.leb_spec n (1 + lenN s)); try reflexivity; lia.
+Qed.
+
+Fixpoint run_fast {A} (d : dec A) (s : list N) : fres A :=
+  match d with
+  | Ret a => FOk a s
+  | Fail e => FErr e
+  | Crash w => FPanic w
+  | NoFuel => FFuel
+  | ReadByte k => match s with [] => FErr eEOF | b :: s' => run_fast (k b) s' end
+  | ReadFull n k => if fits n s then run_fast (k (takeN n s)) (dropN n s) else FErr eEOF
+  | RawRead n k =>
+      if fits n s then run_fast (k (takeN n s)) (dropN n s)
+      else match s with
+           | [] => if n =? 0 then run_fast (k []) [] else FErr eEOF
+           | _ => run_fast (k (s ++ repeat 0 (N.to_nat n - length s))) []
+           end
+  end.
+
+Theorem run_fast_eq {A} (d : dec A) : forall s, run_fast d s = run_flat d s.
+Proof.
+  induction d as [a|e|w| |k IH|n k IH|n k IH]; intros s; cbn [run_fast run_flat]; try reflexivity.
+  - destruct s; [reflexivity|apply IH].
+  - rewrite fits_spec. destruct (n <=? lenN s); [apply IH|reflexivity].
+  - rewrite fits_spec. destruct (n <=? lenN s); [apply IH|].
+    destruct s; [destruct (n =? 0); [apply IH|reflexivity]|apply IH].
+Qed.
